@@ -19,7 +19,7 @@ package armor
 //@   ensures#full err == nil ==> n == len(p) && a.started                                                                           [C08 C12]
 //@   ensures#hdrerr (!old(a.started) && !a.started) ==> err != nil && n == 0 && a.encoder.$acc == old(a.encoder.$acc)                [C08 C13]
 //@   ensures#mono old(a.started) ==> a.started                                                                                      [C08]
-//@   ensures#hdronce old(a.started) ==> (err == nil ==> true)
+//@   ensures#hdrwritten (!old(a.started) && a.started) ==> hasprefix(a.dst.$out, cat(old(a.dst.$out), HEADERLINE))                    [C08 C13]
 //@   modifies a.started, a.dst.$out, a.encoder.$acc, a.encoder.written, a.encoder.buf.$bbuf
 
 //@ func (*armoredWriter).Close(a) (err)
